@@ -346,6 +346,14 @@ m('schema-sort-fields','C07',['WIT-PURE'],'frontend/schema/schema.go','''	// fir
 	}
 	is := toStructField(s.Fields, leafType, omitEmpty)
 ''',note='by-value receiver, but the Fields slice is shared with the caller: Instantiate erases the visibilities of the shared schema')
+m('outdef-hint-early','C06',['OUT-DEF'],'constraint/blueprint_hint.go','''	lenInputs := int(inst.Calldata[2])
+	if cap(h.Inputs) >= lenInputs {''','''	lenInputs := int(inst.Calldata[2])
+	if lenInputs == 0 {
+		h.OutputRange.Start = inst.Calldata[3]
+		h.OutputRange.End = inst.Calldata[4]
+		return
+	}
+	if cap(h.Inputs) >= lenInputs {''',note='fast path for input-less hints leaves HintMapping.Inputs of the previous instruction in the scratch object')
 json.dump({'comment':'selftest mutants: each patch breaks one rule instance and must be detected by the listed rule(s) of its property; produced by tools/make_selftest.py','mutants':M}, open(os.path.join(root,'selftest','mutants.json'),'w'), indent=1)
 subprocess.run(['git','-C','/repo','worktree','remove','--force',WT],capture_output=True)
 print(len(M),'mutants')
